@@ -275,7 +275,7 @@ func (commander *Commander) RevertTransaction(ctx context.Context, parameters Pa
 		return log.Data.(ledger.RevertedTransactionLogPayload).RevertTransaction, nil
 	}
 
-	commander.monitor.RevertedTransaction(ctx, log.Data.(ledger.RevertedTransactionLogPayload).RevertTransaction, transactionToRevert)
+	commander.monitor.RevertedTransaction(ctx, transactionToRevert, log.Data.(ledger.RevertedTransactionLogPayload).RevertTransaction)
 
 	return log.Data.(ledger.RevertedTransactionLogPayload).RevertTransaction, nil
 }
